@@ -1,6 +1,6 @@
 (** C16 — parsers and lexers can be reused: results do not depend on history. *)
 From Coq Require Import List ZArith Arith.
-From Gocc Require Import Base.Utf8 Lex.Scan Lex.ScanProofs LR.Parse.
+From Gocc Require Import Base.Utf8 Lex.Scan Lex.ScanProofs LR.Parse LR.ObjParse LR.ObjParseProofs.
 Import ListNotations.
 
 (** The generated Parse starts with Reset: whatever stack an earlier run left behind (ANY stack, not only
@@ -41,6 +41,45 @@ Theorem C16_lexer_reset_is_fresh : forall d src l k,
 Proof. intros. reflexivity. Qed.
 Print Assumptions C16_lexer_reset_is_fresh.
 
-(** These two statements are shallow by design: the model's Parse begins with Reset because the code
-    does.  The assurance for C16 comes from the correspondence run over call histories (one object vs
-    fresh objects), which is what ties [parser_reset]/[reset] to the generated code. *)
+(** The statements above are shallow by design: the list model's Parse begins with a fresh list because the code begins with
+    Reset.  The statements below are about the parser OBJECT as the generated code represents it (LR/ObjParse.v): two Go
+    slices whose backing arrays survive Reset with everything earlier runs wrote into them, a capacity beyond which append
+    re-allocates (with ANY content in the new cells), a stale look-ahead field; top/peek/popN index those arrays and panic
+    beyond the length.  [pobj] is a plain record: the theorems quantify over EVERY value of it, reachable or not. *)
+
+(** Parse on any object returns exactly what the list model's Parse returns (result, error with its expected list, action
+    log, number of scans), and leaves an object satisfying the representation invariant *)
+Theorem C16_object_parse_is_fresh_parse : forall grow_s grow_a tb sem input fuel o,
+  fst (k_parse grow_s grow_a tb sem input fuel o) = parse tb sem input fuel
+  /\ o_inv (snd (k_parse grow_s grow_a tb sem input fuel o)).
+Proof. exact k_parse_is_parse. Qed.
+Print Assumptions C16_object_parse_is_fresh_parse.
+
+(** histories: ONE object handed from call to call (each call with its own actions and token stream), starting from any
+    object: the k-th result is the result of a fresh parser on the k-th input *)
+Theorem C16_object_history_independent : forall grow_s grow_a tb fuel calls o,
+  k_history grow_s grow_a tb fuel o calls = map (fun c => parse tb (fst c) (snd c) fuel) calls.
+Proof. exact k_history_independent. Qed.
+Print Assumptions C16_object_history_independent.
+
+(** what lies beyond the lengths of the slices, and how append grows them, is unobservable *)
+Theorem C16_object_garbage_irrelevant : forall grow_s grow_a grow_s' grow_a' tb sem input fuel o o' pos calls log,
+  o_inv o -> o_inv o' -> o_abs o = o_abs o' -> o_next o = o_next o' ->
+  fst (k_run grow_s grow_a tb sem input fuel o pos calls log) = fst (k_run grow_s' grow_a' tb sem input fuel o' pos calls log).
+Proof. exact k_run_garbage_irrelevant. Qed.
+Print Assumptions C16_object_garbage_irrelevant.
+
+(** Non-vacuity and teeth: on hand-written tables for  S : a S | b  the history [101 a's then b; a b] run on the object
+    model gives the fresh results, while the variant whose reset re-allocates the grown attribute array with LENGTH 100
+    (the seeded change C16b) hands cells to the actions that the run never wrote. *)
+Example C16_object_model_distinguishes_a_bad_reset :
+  nth_error (k_history_bad go_grow_s go_grow_a tb_ex 300 (k_new go_grow_s go_grow_a) hist_ex) 1 <>
+  Some (parse tb_ex (sem_node None) (toks_from 0 [2; 3]%nat) 300)
+  /\ k_history go_grow_s go_grow_a tb_ex 300 (k_new go_grow_s go_grow_a) hist_ex =
+     map (fun c => parse tb_ex (fst c) (snd c) 300) hist_ex.
+Proof. exact bad_history_differs. Qed.
+
+(** The object model is tied to the generated code on every run: the extracted [k_parse], threaded through each history,
+    is compared with ONE Go parser object fed the same history (deep inputs that make the arrays grow included).  What
+    it does not exhibit: the slice popN returns aliases the backing array (an action that keeps its X argument would see
+    later pushes); attribute values are immutable in the model. *)
